@@ -199,3 +199,4 @@ def check(ctx):
             bad = sorted(x for x in stops if x in r)
             ctx.ob("R-PAIR", PL, "poll/popped-event-dispatched", not bad, "every event popped by poll goes through continue_bottom (Normal) or check_panic (Done) before poll pops again, parks or returns" if not bad else
                    "poll can pop an event and go on without running its bottom half / joining its selector: the event is consumed (dropped) although its bottom half never ran", f.where(bad[0]) if bad else f.where(sorted(pops)[0]))
+    ctx.import_rules("C02", r"^atomic-option/")
